@@ -88,9 +88,16 @@ Print Assumptions C19_progressive_decider_respects_weights.
 
 Theorem C19_zero_heuristic_falls_back_to_production_weights : forall g target ctx alts ws0,
   prog_weights g target ctx alts = Ok ws0 -> forallb (fun q => Qeq_bool q 0) ws0 = true ->
-  prog_final_weights g target ctx alts = Ok (map (prod_weight g) alts).
+  prog_final_weights g target ctx alts = prog_fallback g alts.
 Proof. exact prog_fallback_is_production_weights. Qed.
 Print Assumptions C19_zero_heuristic_falls_back_to_production_weights.
+
+(* an alternative that cannot reach a terminal never gets a positive weight (repair of F38): expanding it would never end *)
+Theorem C19_unproductive_alternative_gets_weight_zero : forall g target ctx alts ws,
+  prog_weights g target ctx alts = Ok ws ->
+  forall i x q v, nth_error alts i = Some x -> nth_error ws i = Some q -> gdist_ty g x = Ok v -> (INF <= v)%Z -> (q == 0)%Q.
+Proof. exact prog_weights_unproductive. Qed.
+Print Assumptions C19_unproductive_alternative_gets_weight_zero.
 
 (* ---- non-vacuity: a hierarchy A -> B<2> | C | D<0>, E(A) abstract -> F<3> | G, whose extraction
    succeeds, is weighted, and has two rules ---- *)
